@@ -191,9 +191,23 @@ def gen_cases(seed: int, n_compiled: int, n_relayout: int, n_random: int, prop: 
     return good, stats
 
 
-def run_pipeline(cases: list[Case]) -> list[dict]:
+def decompile_without_loop_builder(ops: list, infos: list, coros: list) -> dict:
+    """the real decompiler with SsbGraphMinimizer.build_loops switched off from outside (no loop is written as `forever`;
+    everything else as it is): tells whether a wrong text is due to that call site"""
+    import explorerscript.ssb_converting.decompiler.graph_building.graph_minimizer as gm
+    from core import impl_decompile
+
+    orig = gm.SsbGraphMinimizer.build_loops
+    gm.SsbGraphMinimizer.build_loops = lambda self: None  # type: ignore
+    try:
+        return impl_decompile(ops, infos, coros)
+    finally:
+        gm.SsbGraphMinimizer.build_loops = orig  # type: ignore
+
+
+def run_pipeline(cases: list[Case], dec_task: str = "decompile") -> list[dict]:
     """decompile every case; read the text back; decide equivalences. Returns one record per case."""
-    dres = run_impl([("decompile", c.ops, c.infos, c.coros) for c in cases])
+    dres = run_impl([(dec_task, c.ops, c.infos, c.coros) for c in cases])
     recs: list[dict] = []
     todo_compile, todo_elab = [], []
     for c, d in zip(cases, dres):
